@@ -19,14 +19,15 @@ Record sys := { committed : bool;        (* the primary state is the request's n
 
 Definition sys0 : sys := {| committed := false; aux := []; follow_ups_failed := 0 |}.
 
-(* executing the trace from position i with the fault at position k (None: no fault).
+(* executing the trace from position i with the faults at the positions in k ([]: no fault).
    Before the commit an error aborts the request; after it errors are logged and the request still
    reports success. *)
-Fixpoint exec (tr : list opclass) (i : nat) (k : option nat) (s : sys) : sys * result :=
+(* [k]: the positions whose operation fails (a single fault, a pair, any set) *)
+Fixpoint exec (tr : list opclass) (i : nat) (k : list nat) (s : sys) : sys * result :=
   match tr with
   | [] => (s, if committed s then ROk else RErr)
   | op :: rest =>
-      let faulty := match k with Some n => Nat.eqb n i | None => false end in
+      let faulty := existsb (Nat.eqb i) k in
       if committed s then
         (* post-commit position *)
         if faulty then
@@ -46,7 +47,7 @@ Fixpoint exec (tr : list opclass) (i : nat) (k : option nat) (s : sys) : sys * r
            end
   end.
 
-Definition run_request (tr : list opclass) (k : option nat) : sys * result := exec tr 0 k sys0.
+Definition run_request (tr : list opclass) (k : list nat) : sys * result := exec tr 0 k sys0.
 
 Fixpoint commit_index_from (tr : list opclass) (i : nat) : option nat :=
   match tr with
@@ -57,4 +58,4 @@ Fixpoint commit_index_from (tr : list opclass) (i : nat) : option nat :=
 Definition commit_index (tr : list opclass) : option nat := commit_index_from tr 0.
 
 (* what the model predicts for a fault at operation k of the trace *)
-Definition predicted (tr : list opclass) (k : nat) : result := snd (run_request tr (Some k)).
+Definition predicted (tr : list opclass) (k : nat) : result := snd (run_request tr [k]).
